@@ -192,9 +192,8 @@ struct RunInfo {
     ticks: u32,
     keep_state_errors: u32,
     critical_errors: Vec<String>,
+    panics: Vec<String>,
     harness_errors: Vec<String>,
-    /// (step, state after the tick)
-    states: Vec<(u32, String)>,
     restart_in_state: Vec<String>,
     /// beacon that must be signed after the final restart: (epoch, immutable file number)
     final_beacon: Option<(u64, u64)>,
@@ -240,19 +239,32 @@ impl World {
     async fn tick(&mut self) {
         self.info.ticks += 1;
         let Some(signer) = &self.signer else { return };
-        match signer.state_machine.cycle().await {
-            Ok(()) => {}
-            Err(e) if e.is_critical() => {
+        // the cycle runs in its own task so that a panic of the signer is observed like a process crash
+        let sm = signer.state_machine.clone();
+        let outcome = tokio::spawn(async move { sm.cycle().await }).await;
+        match outcome {
+            Ok(Ok(())) => {}
+            Ok(Err(e)) if e.is_critical() => {
                 // production: the process exits and is restarted by its supervisor
                 self.info.critical_errors.push(format!("step {}: {e:?}", self.step));
                 self.crashed_in_step = true;
                 self.restart().await;
-                return;
             }
-            Err(_) => self.info.keep_state_errors += 1,
+            Ok(Err(_)) => self.info.keep_state_errors += 1,
+            Err(join_error) => {
+                let msg = match join_error.try_into_panic() {
+                    Ok(p) => p
+                        .downcast_ref::<String>()
+                        .cloned()
+                        .or_else(|| p.downcast_ref::<&str>().map(|s| s.to_string()))
+                        .unwrap_or_else(|| "<non-string panic>".into()),
+                    Err(e) => format!("cycle task failed: {e}"),
+                };
+                self.info.panics.push(format!("step {}: {msg}", self.step));
+                self.crashed_in_step = true;
+                self.restart().await;
+            }
         }
-        let st = self.signer.as_ref().unwrap().state_machine.get_state().await;
-        self.info.states.push((self.step, state_name(&st)));
     }
 
     async fn epoch_up(&mut self) -> u64 {
@@ -540,7 +552,7 @@ fn judge(st: &AggState, info: &RunInfo) -> Verdict {
         let model = models.entry(e).or_insert_with(|| {
             let signers = st.signers_for_signing_epoch(e);
             let params = st.params_for_signing_epoch(e).expect("e >= 2 here");
-            let builder = SignerBuilder::new(&signers, &params).map_err(|err| format!("{err:?}"));
+            let builder = SignerBuilder::new(&signers, &params).map_err(|err| format!("{err:#}"));
             let next_signers = st.signers_for_signing_epoch(e + 1);
             let next_params = st.params_for_signing_epoch(e + 1).unwrap();
             let next_avk = encode_avk(&next_signers, &next_params);
@@ -562,7 +574,7 @@ fn judge(st: &AggState, info: &RunInfo) -> Verdict {
                 authentication_status: SingleSignatureAuthenticationStatus::Unauthenticated,
             },
             Err(err) => {
-                v.violations.push(("b-signature-undecodable".into(), format!("{ctx}: {err:?}")));
+                v.violations.push(("b-signature-undecodable".into(), format!("{ctx}: {err:#}")));
                 continue;
             }
         };
@@ -614,7 +626,7 @@ fn judge(st: &AggState, info: &RunInfo) -> Verdict {
         if let Err(err) = ms.verify_single_signature(pm, &sig) {
             v.violations.push((
                 "b-signature-rejected".into(),
-                format!("{ctx}: rejected under the signer set derived from the registrations of epoch {}: {err:?}", e - 2),
+                format!("{ctx}: rejected under the signer set derived from the registrations of epoch {}: {err:#}", e - 2),
             ));
             continue;
         }
@@ -630,7 +642,7 @@ fn judge(st: &AggState, info: &RunInfo) -> Verdict {
         ) {
             v.violations.push((
                 "b-not-the-registered-key".into(),
-                format!("{ctx}: does not verify with the key registered during epoch {}: {err:?}", e - 2),
+                format!("{ctx}: does not verify with the key registered during epoch {}: {err:#}", e - 2),
             ));
         }
         v.labels.push(format!("verified:{}", discriminant(set)));
@@ -733,7 +745,7 @@ fn judge(st: &AggState, info: &RunInfo) -> Verdict {
         });
         if !ok {
             let last_states: Vec<String> =
-                info.states.iter().rev().take(6).rev().map(|(s, n)| format!("{s}:{n}")).collect();
+                info.trace.iter().rev().take(6).rev().map(|r| format!("{}:{}", r.step, r.state)).collect();
             v.violations.push((
                 "d-no-signature-after-restart".into(),
                 format!(
@@ -868,7 +880,16 @@ fn case_fn(case: &Case) -> Report {
         rep.nontrivial(shape.join("|"));
     }
 
-    for (key, what) in verdict.violations {
+    if !info.panics.is_empty() {
+        rep.label("signer-panic");
+    }
+    let mut violations = verdict.violations;
+    if let Some(p) = info.panics.first() {
+        // a crash of the code under test is never swallowed (reported after the more specific clause violations)
+        let short: String = p.split(" @ ").next().unwrap_or("").chars().filter(|c| !c.is_ascii_digit()).take(60).collect();
+        violations.push((format!("signer-panic:{}", short.trim()), format!("the signer panicked during a cycle: {p}")));
+    }
+    for (key, what) in violations {
         if key == "harness-model" {
             rep.label("harness-model-problem");
         }
